@@ -211,15 +211,16 @@ def run_case(cid, rng, workdir):
     if not run["missing"] and ev["ref"] is not None and not refparams.missing_links(ev["ref"]):
         ref = ev["ref"]
         # links realised by edges that are not bonds/constraints (angle-only links) do not survive in the file
+        # ... which is decided on what the definitions say (the reference), not on what happens to be in the file
         file_adj = set()
-        rid = {a["idx"]: a["resid"] for a in ev["obs"]["atoms"]}
+        rid = {a["idx"]: a["resid"] for a in ref["atoms"]}
         for sec in ("bonds", "constraints"):
-            for (ats, _p, cond) in ev["obs"]["inter"].get(sec, {}):
-                if rid[ats[0]] != rid[ats[1]] and not cond:
+            for (ats, _p, cond), cnt in ref["inter"].get(sec, {}).items():
+                if cnt and rid[ats[0]] != rid[ats[1]] and not cond and not (set(ats) & ref["removed"]):
                     file_adj.add(frozenset((rid[ats[0]], rid[ats[1]])))
         want_nodes = sorted((n["resid"], _resname_of(ref, n["key"])) for n in case["graph"]["nodes"])
         want_edges = {frozenset((ref["by_key"][a]["resid"], ref["by_key"][b]["resid"])) for a, b, _ in case["graph"]["edges"]}
-        if want_edges <= file_adj and not ref["removed"]:
+        if want_edges <= file_adj:
             bump(res, "residue_graphs_compared")
             for label, mm in (("topology", meta_re),):
                 got_nodes = sorted((mm.nodes[n]["resid"], mm.nodes[n]["resname"]) for n in mm.nodes)
